@@ -86,7 +86,7 @@ package fit
 //@@ ------------------------------------------------------------------ messages.go: component expansion
 
 //@ func (x *SessionMsg) expandComponents()
-//@   props C18 C03
+//@   props C18
 //@   ensures [AvgSpeed] old(x.AvgSpeed) != 0xFFFF ==> x.EnhancedAvgSpeed == uint32(old(x.AvgSpeed))
 //@   ensures [AvgSpeed.invalid] old(x.AvgSpeed) == 0xFFFF ==> x.EnhancedAvgSpeed == old(x.EnhancedAvgSpeed)
 //@   ensures [MaxSpeed] old(x.MaxSpeed) != 0xFFFF ==> x.EnhancedMaxSpeed == uint32(old(x.MaxSpeed))
@@ -100,7 +100,7 @@ package fit
 //@   assigns x.EnhancedAvgSpeed, x.EnhancedMaxSpeed, x.EnhancedAvgAltitude, x.EnhancedMaxAltitude, x.EnhancedMinAltitude
 
 //@ func (x *LapMsg) expandComponents()
-//@   props C18 C03
+//@   props C18
 //@   ensures [AvgSpeed] old(x.AvgSpeed) != 0xFFFF ==> x.EnhancedAvgSpeed == uint32(old(x.AvgSpeed))
 //@   ensures [AvgSpeed.invalid] old(x.AvgSpeed) == 0xFFFF ==> x.EnhancedAvgSpeed == old(x.EnhancedAvgSpeed)
 //@   ensures [MaxSpeed] old(x.MaxSpeed) != 0xFFFF ==> x.EnhancedMaxSpeed == uint32(old(x.MaxSpeed))
@@ -114,7 +114,7 @@ package fit
 //@   assigns x.EnhancedAvgSpeed, x.EnhancedMaxSpeed, x.EnhancedAvgAltitude, x.EnhancedMaxAltitude, x.EnhancedMinAltitude
 
 //@ func (x *SegmentLapMsg) expandComponents()
-//@   props C18 C03
+//@   props C18
 //@   ensures [AvgAltitude] old(x.AvgAltitude) != 0xFFFF ==> x.EnhancedAvgAltitude == uint32(old(x.AvgAltitude))
 //@   ensures [AvgAltitude.invalid] old(x.AvgAltitude) == 0xFFFF ==> x.EnhancedAvgAltitude == old(x.EnhancedAvgAltitude)
 //@   ensures [MaxAltitude] old(x.MaxAltitude) != 0xFFFF ==> x.EnhancedMaxAltitude == uint32(old(x.MaxAltitude))
@@ -124,7 +124,7 @@ package fit
 //@   assigns x.EnhancedAvgAltitude, x.EnhancedMaxAltitude, x.EnhancedMinAltitude
 
 //@ func (x *EventMsg) expandComponents()
-//@   props C18 C03
+//@   props C18
 //@   ensures [Data] old(x.Data16) != 0xFFFF ==> x.Data == uint32(old(x.Data16))
 //@   ensures [Data.invalid] old(x.Data16) == 0xFFFF ==> x.Data == old(x.Data)
 //@   ensures [Score] x.Data != 0xFFFFFFFF && x.Event == EventSportPoint ==> x.Score == uint16(x.Data) && x.OpponentScore == uint16(x.Data>>16)
@@ -141,7 +141,7 @@ package fit
 //@ spec accLast(a *uint32Accumulator) uint32 := ite(a == nil, 0, a.lastValue)
 
 //@ func (x *RecordMsg) expandComponents()
-//@   props C18 C03
+//@   props C18
 //@   locals rangeindex int
 //@   ensures [EnhancedAltitude] old(x.Altitude) != 0xFFFF ==> x.EnhancedAltitude == uint32(old(x.Altitude))
 //@   ensures [EnhancedAltitude.invalid] old(x.Altitude) == 0xFFFF ==> x.EnhancedAltitude == old(x.EnhancedAltitude)
@@ -685,17 +685,168 @@ package fit
 //@   requires [router] typeis[FileIdMsg](ifaceOf(msg)) || file_ready(f)
 //@   ensures [ready] old(file_ready(f)) ==> file_ready(f)
 //@   ensures [router-kept] same(f.msgAdder, old(f.msgAdder))
+//@@ C03: the five message types every file holds go to their slots of File; everything else goes to the container
+//@   ensures [file-id] typeis[FileIdMsg](ifaceOf(msg)) ==> same(f.FileId, msgOf[FileIdMsg](msg)) && f.FileCreator == old(f.FileCreator) && f.TimestampCorrelation == old(f.TimestampCorrelation) && same(f.fieldDescriptionMsgs, old(f.fieldDescriptionMsgs)) && same(f.developerDataIdMsgs, old(f.developerDataIdMsgs))
+//@   ensures [file-creator] typeis[FileCreatorMsg](ifaceOf(msg)) ==> f.FileCreator != nil && fresh(f.FileCreator) && same(*f.FileCreator, msgOf[FileCreatorMsg](msg)) && same(f.FileId, old(f.FileId)) && f.TimestampCorrelation == old(f.TimestampCorrelation) && same(f.fieldDescriptionMsgs, old(f.fieldDescriptionMsgs)) && same(f.developerDataIdMsgs, old(f.developerDataIdMsgs))
+//@   ensures [timestamp-correlation] typeis[TimestampCorrelationMsg](ifaceOf(msg)) ==> f.TimestampCorrelation != nil && fresh(f.TimestampCorrelation) && same(*f.TimestampCorrelation, msgOf[TimestampCorrelationMsg](msg)) && same(f.FileId, old(f.FileId)) && f.FileCreator == old(f.FileCreator) && same(f.fieldDescriptionMsgs, old(f.fieldDescriptionMsgs)) && same(f.developerDataIdMsgs, old(f.developerDataIdMsgs))
+//@   ensures [field-description] typeis[FieldDescriptionMsg](ifaceOf(msg)) ==> len(f.fieldDescriptionMsgs) == old(len(f.fieldDescriptionMsgs))+1 && (forall k in 0..old(len(f.fieldDescriptionMsgs)) :: f.fieldDescriptionMsgs[k] == old(f.fieldDescriptionMsgs)[k]) &&
+//@  |   fresh(f.fieldDescriptionMsgs[old(len(f.fieldDescriptionMsgs))]) && same(*f.fieldDescriptionMsgs[old(len(f.fieldDescriptionMsgs))], msgOf[FieldDescriptionMsg](msg)) && same(f.FileId, old(f.FileId)) && f.FileCreator == old(f.FileCreator) && f.TimestampCorrelation == old(f.TimestampCorrelation) && same(f.developerDataIdMsgs, old(f.developerDataIdMsgs))
+//@   ensures [developer-data-id] typeis[DeveloperDataIdMsg](ifaceOf(msg)) ==> len(f.developerDataIdMsgs) == old(len(f.developerDataIdMsgs))+1 && (forall k in 0..old(len(f.developerDataIdMsgs)) :: f.developerDataIdMsgs[k] == old(f.developerDataIdMsgs)[k]) &&
+//@  |   fresh(f.developerDataIdMsgs[old(len(f.developerDataIdMsgs))]) && same(*f.developerDataIdMsgs[old(len(f.developerDataIdMsgs))], msgOf[DeveloperDataIdMsg](msg)) && same(f.FileId, old(f.FileId)) && f.FileCreator == old(f.FileCreator) && f.TimestampCorrelation == old(f.TimestampCorrelation) && same(f.fieldDescriptionMsgs, old(f.fieldDescriptionMsgs))
+//@   ensures [other] !typeis[FileIdMsg](ifaceOf(msg)) && !typeis[FileCreatorMsg](ifaceOf(msg)) && !typeis[TimestampCorrelationMsg](ifaceOf(msg)) && !typeis[FieldDescriptionMsg](ifaceOf(msg)) && !typeis[DeveloperDataIdMsg](ifaceOf(msg)) ==>
+//@  |   same(f.FileId, old(f.FileId)) && f.FileCreator == old(f.FileCreator) && f.TimestampCorrelation == old(f.TimestampCorrelation) && same(f.fieldDescriptionMsgs, old(f.fieldDescriptionMsgs)) && same(f.developerDataIdMsgs, old(f.developerDataIdMsgs))
 //@   assigns f.FileId, f.FileCreator, f.TimestampCorrelation, f.fieldDescriptionMsgs, f.developerDataIdMsgs, ifaceobj(f.msgAdder)
 
 //@ func (f *File) init() (err error)
 //@   props C01 C03
 //@   ensures [not-clean-eof] !iserr(err, errReadSize)
 //@   ensures [ready] err == nil ==> file_ready(f) && fresh(f.msgAdder)
+//@   ensures [supported] (err == nil) <==> heldType(f.FileId.Type)
+//@   ensures [activity] f.FileId.Type == FileTypeActivity ==> f.activity != nil && fresh(f.activity) && typeis[*ActivityFile](f.msgAdder) && f.msgAdder.(*ActivityFile) == f.activity
+//@   ensures [device] f.FileId.Type == FileTypeDevice ==> f.device != nil && fresh(f.device) && typeis[*DeviceFile](f.msgAdder) && f.msgAdder.(*DeviceFile) == f.device
+//@   ensures [settings] f.FileId.Type == FileTypeSettings ==> f.settings != nil && fresh(f.settings) && typeis[*SettingsFile](f.msgAdder) && f.msgAdder.(*SettingsFile) == f.settings
+//@   ensures [sport] f.FileId.Type == FileTypeSport ==> f.sport != nil && fresh(f.sport) && typeis[*SportFile](f.msgAdder) && f.msgAdder.(*SportFile) == f.sport
+//@   ensures [workout] f.FileId.Type == FileTypeWorkout ==> f.workout != nil && fresh(f.workout) && typeis[*WorkoutFile](f.msgAdder) && f.msgAdder.(*WorkoutFile) == f.workout
+//@   ensures [course] f.FileId.Type == FileTypeCourse ==> f.course != nil && fresh(f.course) && typeis[*CourseFile](f.msgAdder) && f.msgAdder.(*CourseFile) == f.course
+//@   ensures [schedules] f.FileId.Type == FileTypeSchedules ==> f.schedules != nil && fresh(f.schedules) && typeis[*SchedulesFile](f.msgAdder) && f.msgAdder.(*SchedulesFile) == f.schedules
+//@   ensures [weight] f.FileId.Type == FileTypeWeight ==> f.weight != nil && fresh(f.weight) && typeis[*WeightFile](f.msgAdder) && f.msgAdder.(*WeightFile) == f.weight
+//@   ensures [totals] f.FileId.Type == FileTypeTotals ==> f.totals != nil && fresh(f.totals) && typeis[*TotalsFile](f.msgAdder) && f.msgAdder.(*TotalsFile) == f.totals
+//@   ensures [goals] f.FileId.Type == FileTypeGoals ==> f.goals != nil && fresh(f.goals) && typeis[*GoalsFile](f.msgAdder) && f.msgAdder.(*GoalsFile) == f.goals
+//@   ensures [bloodPressure] f.FileId.Type == FileTypeBloodPressure ==> f.bloodPressure != nil && fresh(f.bloodPressure) && typeis[*BloodPressureFile](f.msgAdder) && f.msgAdder.(*BloodPressureFile) == f.bloodPressure
+//@   ensures [monitoringA] f.FileId.Type == FileTypeMonitoringA ==> f.monitoringA != nil && fresh(f.monitoringA) && typeis[*MonitoringAFile](f.msgAdder) && f.msgAdder.(*MonitoringAFile) == f.monitoringA
+//@   ensures [activitySummary] f.FileId.Type == FileTypeActivitySummary ==> f.activitySummary != nil && fresh(f.activitySummary) && typeis[*ActivitySummaryFile](f.msgAdder) && f.msgAdder.(*ActivitySummaryFile) == f.activitySummary
+//@   ensures [monitoringDaily] f.FileId.Type == FileTypeMonitoringDaily ==> f.monitoringDaily != nil && fresh(f.monitoringDaily) && typeis[*MonitoringDailyFile](f.msgAdder) && f.msgAdder.(*MonitoringDailyFile) == f.monitoringDaily
+//@   ensures [monitoringB] f.FileId.Type == FileTypeMonitoringB ==> f.monitoringB != nil && fresh(f.monitoringB) && typeis[*MonitoringBFile](f.msgAdder) && f.msgAdder.(*MonitoringBFile) == f.monitoringB
+//@   ensures [segment] f.FileId.Type == FileTypeSegment ==> f.segment != nil && fresh(f.segment) && typeis[*SegmentFile](f.msgAdder) && f.msgAdder.(*SegmentFile) == f.segment
+//@   ensures [segmentList] f.FileId.Type == FileTypeSegmentList ==> f.segmentList != nil && fresh(f.segmentList) && typeis[*SegmentListFile](f.msgAdder) && f.msgAdder.(*SegmentListFile) == f.segmentList
 //@   assigns f.msgAdder, f.activity, f.device, f.settings, f.sport, f.workout, f.course, f.schedules, f.weight, f.totals, f.goals, f.bloodPressure, f.monitoringA, f.activitySummary, f.monitoringDaily, f.monitoringB, f.segment, f.segmentList
 
 //@ func (f *File) Type() (r FileType)
 //@   props C03
 //@   ensures r == f.FileId.Type
+//@   assigns nothing
+
+//@@ ------------------------------------------------------------------ file.go: typed accessors (C03)
+//@@ the file types that have a container (from the property: every other type is rejected by init)
+//@ pred pure heldType(t FileType) := t == FileTypeActivity || t == FileTypeDevice || t == FileTypeSettings || t == FileTypeSport || t == FileTypeWorkout || t == FileTypeCourse || t == FileTypeSchedules || t == FileTypeWeight || t == FileTypeTotals || t == FileTypeGoals || t == FileTypeBloodPressure || t == FileTypeMonitoringA || t == FileTypeActivitySummary || t == FileTypeMonitoringDaily || t == FileTypeMonitoringB || t == FileTypeSegment || t == FileTypeSegmentList
+
+//@ func (f *File) Activity() (r *ActivityFile, err error)
+//@   props C03
+//@   ensures [iff] (err == nil) <==> f.FileId.Type == FileTypeActivity
+//@   ensures [container] err == nil ==> r == f.activity
+//@   ensures [none] err != nil ==> r == nil
+//@   assigns nothing
+
+//@ func (f *File) Device() (r *DeviceFile, err error)
+//@   props C03
+//@   ensures [iff] (err == nil) <==> f.FileId.Type == FileTypeDevice
+//@   ensures [container] err == nil ==> r == f.device
+//@   ensures [none] err != nil ==> r == nil
+//@   assigns nothing
+
+//@ func (f *File) Settings() (r *SettingsFile, err error)
+//@   props C03
+//@   ensures [iff] (err == nil) <==> f.FileId.Type == FileTypeSettings
+//@   ensures [container] err == nil ==> r == f.settings
+//@   ensures [none] err != nil ==> r == nil
+//@   assigns nothing
+
+//@ func (f *File) Sport() (r *SportFile, err error)
+//@   props C03
+//@   ensures [iff] (err == nil) <==> f.FileId.Type == FileTypeSport
+//@   ensures [container] err == nil ==> r == f.sport
+//@   ensures [none] err != nil ==> r == nil
+//@   assigns nothing
+
+//@ func (f *File) Workout() (r *WorkoutFile, err error)
+//@   props C03
+//@   ensures [iff] (err == nil) <==> f.FileId.Type == FileTypeWorkout
+//@   ensures [container] err == nil ==> r == f.workout
+//@   ensures [none] err != nil ==> r == nil
+//@   assigns nothing
+
+//@ func (f *File) Course() (r *CourseFile, err error)
+//@   props C03
+//@   ensures [iff] (err == nil) <==> f.FileId.Type == FileTypeCourse
+//@   ensures [container] err == nil ==> r == f.course
+//@   ensures [none] err != nil ==> r == nil
+//@   assigns nothing
+
+//@ func (f *File) Schedules() (r *SchedulesFile, err error)
+//@   props C03
+//@   ensures [iff] (err == nil) <==> f.FileId.Type == FileTypeSchedules
+//@   ensures [container] err == nil ==> r == f.schedules
+//@   ensures [none] err != nil ==> r == nil
+//@   assigns nothing
+
+//@ func (f *File) Weight() (r *WeightFile, err error)
+//@   props C03
+//@   ensures [iff] (err == nil) <==> f.FileId.Type == FileTypeWeight
+//@   ensures [container] err == nil ==> r == f.weight
+//@   ensures [none] err != nil ==> r == nil
+//@   assigns nothing
+
+//@ func (f *File) Totals() (r *TotalsFile, err error)
+//@   props C03
+//@   ensures [iff] (err == nil) <==> f.FileId.Type == FileTypeTotals
+//@   ensures [container] err == nil ==> r == f.totals
+//@   ensures [none] err != nil ==> r == nil
+//@   assigns nothing
+
+//@ func (f *File) Goals() (r *GoalsFile, err error)
+//@   props C03
+//@   ensures [iff] (err == nil) <==> f.FileId.Type == FileTypeGoals
+//@   ensures [container] err == nil ==> r == f.goals
+//@   ensures [none] err != nil ==> r == nil
+//@   assigns nothing
+
+//@ func (f *File) BloodPressure() (r *BloodPressureFile, err error)
+//@   props C03
+//@   ensures [iff] (err == nil) <==> f.FileId.Type == FileTypeBloodPressure
+//@   ensures [container] err == nil ==> r == f.bloodPressure
+//@   ensures [none] err != nil ==> r == nil
+//@   assigns nothing
+
+//@ func (f *File) MonitoringA() (r *MonitoringAFile, err error)
+//@   props C03
+//@   ensures [iff] (err == nil) <==> f.FileId.Type == FileTypeMonitoringA
+//@   ensures [container] err == nil ==> r == f.monitoringA
+//@   ensures [none] err != nil ==> r == nil
+//@   assigns nothing
+
+//@ func (f *File) ActivitySummary() (r *ActivitySummaryFile, err error)
+//@   props C03
+//@   ensures [iff] (err == nil) <==> f.FileId.Type == FileTypeActivitySummary
+//@   ensures [container] err == nil ==> r == f.activitySummary
+//@   ensures [none] err != nil ==> r == nil
+//@   assigns nothing
+
+//@ func (f *File) MonitoringDaily() (r *MonitoringDailyFile, err error)
+//@   props C03
+//@   ensures [iff] (err == nil) <==> f.FileId.Type == FileTypeMonitoringDaily
+//@   ensures [container] err == nil ==> r == f.monitoringDaily
+//@   ensures [none] err != nil ==> r == nil
+//@   assigns nothing
+
+//@ func (f *File) MonitoringB() (r *MonitoringBFile, err error)
+//@   props C03
+//@   ensures [iff] (err == nil) <==> f.FileId.Type == FileTypeMonitoringB
+//@   ensures [container] err == nil ==> r == f.monitoringB
+//@   ensures [none] err != nil ==> r == nil
+//@   assigns nothing
+
+//@ func (f *File) Segment() (r *SegmentFile, err error)
+//@   props C03
+//@   ensures [iff] (err == nil) <==> f.FileId.Type == FileTypeSegment
+//@   ensures [container] err == nil ==> r == f.segment
+//@   ensures [none] err != nil ==> r == nil
+//@   assigns nothing
+
+//@ func (f *File) SegmentList() (r *SegmentListFile, err error)
+//@   props C03
+//@   ensures [iff] (err == nil) <==> f.FileId.Type == FileTypeSegmentList
+//@   ensures [container] err == nil ==> r == f.segmentList
+//@   ensures [none] err != nil ==> r == nil
 //@   assigns nothing
 
 //@@ ------------------------------------------------------------------ reader.go: record loop and entry points
